@@ -1,7 +1,8 @@
-(* C04  Paginating with any Limit yields the same result as one unpaginated read  (partial: see DESIGN.md) *)
+(* C04  Paginating with any Limit yields the same result as one unpaginated read
+   (complete for the base table; per-page facts for indexes: see DESIGN.md) *)
 From Coq Require Import List Bool Arith.
 From Minidyn Require Import Base.Str Base.FMap Base.Outcome Model.Value Model.Key Model.Index Model.Table.
-From Minidyn Require Import Proofs.Paging.
+From Minidyn Require Import Proofs.Paging Proofs.TableInv Proofs.KeyInv Proofs.Pagination.
 Import ListNotations.
 
 (* the next page starts at the first entry ordered after the exclusive start key, in the scan direction: the
@@ -19,3 +20,34 @@ Theorem C04_page_size_at_most_limit :
   forall lm c t q items lek f,
     q_cond q = None -> 0 < q_limit q -> search_data lm c t q = Ok (items, lek, f) -> List.length items <= q_limit q.
 Proof. exact page_size_le_limit. Qed.
+
+(* Base table, any interpreter, any key condition / filter, both directions, any Limit >= 1:
+   following LastEvaluatedKey until none is returned ends within |keys|+1 pages and the pages concatenate to exactly
+   the items the unpaginated request returns, in the same order.  [pages] is the client-side loop; [ev k] is what the
+   request's expressions yield on the item stored under k (they evaluate without error); KInv: items are stored under
+   their own key (C13).  Non-vacuity: Witness/W04.v. *)
+Theorem C04_pagination_complete_base :
+  forall lm c t q ev,
+    q_index q = None -> q_cond q = None -> secondary (t_ks t) = false ->
+    TInv t -> KInv t ->
+    (forall k, In k (t_sorted t) -> match_key lm c t q (get_item t k) = Ok (ev k)) ->
+    forall L, 0 < L ->
+    exists items f, search_data lm c t (with_page q 0 []) = Ok (items, [], f) /\
+                    pages lm c t q (S (List.length (t_sorted t))) L [] = Some items.
+Proof. exact pagination_complete_base. Qed.
+
+(* Resuming from ANY exclusive start key, whether or not an item is still stored under it (it may have been deleted
+   between two pages), returns every matching item positioned after that key in the scan direction, and only those *)
+Theorem C04_resume_returns_all_after_start_key :
+  forall lm c t q ev,
+    q_index q = None -> q_cond q = None -> secondary (t_ks t) = false ->
+    TInv t -> KInv t ->
+    (forall k, In k (t_sorted t) -> match_key lm c t q (get_item t k) = Ok (ev k)) ->
+    forall L esk, 0 < L ->
+    pages lm c t q (S (List.length (t_sorted t))) L esk =
+    Some (map (get_item t)
+           (filter (matched ev)
+              (if has_start_key (t_ks t) (t_defs t) esk
+               then filter (aftb (q_forward q) (parse_start_key (t_ks t) (t_defs t) esk)) (ks t q)
+               else ks t q))).
+Proof. exact resume_complete_base. Qed.
